@@ -1,4 +1,5 @@
 """C16 — an interrupt stops all running tasks and records nothing unfinished."""
+import os
 import signal
 
 from hypothesis import strategies as st
@@ -9,14 +10,14 @@ from ..runner import Outcome
 ID = "C16"
 LEVEL = "fault_enumeration"
 RULE = ("Graph cases (JOBS>=2 biased, experiments, teed and slot modes) x schedule tapes x SIGINT/SIGTERM x injection "
-        "point = the k-th executed Python line of src/conductor/** in the main thread while Conductor's own signal "
+        "point = the k-th executed Python line of src/conductor/** or of subprocess.py (inside the Popen constructor) in the main thread while Conductor's own signal "
         "handler is installed (sys.settrace calls the registered handler at that line, honouring the signal mask). "
         "Quick: k drawn by Hypothesis for generated scenarios + a stride sweep over every 5th line of 3 fixed "
         "scenarios; thorough: every line of the fixed scenarios and of generated ones. Non-trivial = at the injection "
         "some task process was running (started, not exited) or had exited but its completion was not yet processed. "
         "Distinct = SHA-1 of (case, k, signal).")
-ASSUMPTIONS = ["granularity is one Python line of conductor code; signals landing inside C calls or inside subprocess.py "
-               "are represented by the conductor line that made the call",
+ASSUMPTIONS = ["granularity is one Python line of conductor code or of subprocess.py; signals landing inside C calls or inside other "
+               "standard-library modules are represented by the line that made the call",
                "a SIGTERMed virtual child dies at once",
                "interrupt window = from the entry of ExecutionPlanner.create_plan_for to the return of Executor.run_plan "
                "(before it nothing has been started; after it Conductor is only printing its result)",
@@ -30,6 +31,11 @@ LEVEL_TEXT = ("Enumerates interrupt points at Python-line granularity for fixed 
 LEVEL_NOTE = "Trusted: sys.settrace line events as the set of interrupt points; vf/kernel.py kill log."
 
 WINDOW = ["create_plan_for", "run_plan"]
+# interrupt points: every executed line of Conductor's code AND of subprocess.py (the Popen constructor forks the task long
+# before it returns: a signal handled in between meets a child that exists but that no Conductor variable refers to yet)
+import subprocess as _subprocess
+FILES = [os.path.join(os.path.realpath(os.environ.get("VERIF_REPO", "/repo")), "src", "conductor"),
+         os.path.realpath(_subprocess.__file__)]
 ABORT_MSG = "Conductor's execution has been aborted by the user."
 
 FIXED = [
@@ -81,7 +87,7 @@ _N_CACHE = {}
 
 
 def count_lines(case):
-    res = graph.run_graph_case(case, inject={"mode": "count", "only_in": WINDOW})
+    res = graph.run_graph_case(case, inject={"mode": "count", "only_in": WINDOW, "files": FILES})
     return res.get("lines", 0)
 
 
@@ -119,7 +125,7 @@ def run_case(case):
         if n <= 0:
             return Outcome([], ["no_lines"], False, None)
         k = 1 + case["kfrac"] * n // 10000
-    inject = {"mode": "abort", "at": k, "sig": case["sig"], "only_in": WINDOW}
+    inject = {"mode": "abort", "at": k, "sig": case["sig"], "only_in": WINDOW, "files": FILES}
     if case.get("at2"):
         inject["at2"] = case["at2"]
     res = graph.run_graph_case(base, inject=inject)
@@ -184,10 +190,10 @@ def check(case, res, k, sig):
         labels.append("exited_unreaped_at_injection")
     via_popen = "subprocess.py" in files
     suffix = ""
-    if inj2 is not None and inj2["disposition"] != "ignored":
-        suffix = "_second_signal"
     if in_del:
         suffix = "_in___del__"
+    elif inj2 is not None and inj2["disposition"] != "ignored":
+        suffix = "_second_signal"
     elif via_popen:
         suffix = "_inside_popen_constructor"
 
@@ -211,8 +217,10 @@ def check(case, res, k, sig):
             killed = [kk for kk in obs.kills if kk[1] == pid and kk[2] == signal.SIGTERM]
             if not killed and p["exit"] is None:
                 v.append(("spawned_after_abort_not_terminated" + suffix, "%s was started after the signal and left running" % t))
-            elif not in_del:
-                v.append(("spawned_after_abort" + suffix, "%s was started after the signal arrived" % t))
+            else:
+                # the statement demands that whatever was started is stopped, not that nothing is started any more
+                # (a launch that is under way when the signal arrives may complete and is then terminated)
+                labels.append("launch_completed_after_signal_then_terminated")
     if res.get("kernel", {}).get("running_at_end") and not any(s.startswith("not_terminated") or s.startswith("spawned_after") for s, _ in v):
         v.append(("running_at_return" + suffix, "task processes still running after cond run returned"))
     # (b) exit status and diagnostic
